@@ -4,6 +4,8 @@ Monitors: reference-model postconditions on the six module-level conversion
 functions, the length queries, the week-year start helpers, iter_months_days
 and TimePoint.to_*_date; they see every call, including the internal ones
 made by other operations of the workload."""
+import copy
+
 from .. import gen
 from .. import refmodel as R
 
@@ -244,6 +246,11 @@ def run_case(ctx, repo, case):
     spell = case["mode"]
     mode = R.canon(spell)
     repo.CALENDAR.set_mode(spell)
+    if case.get("scratch_first"):
+        # the first thing this process does (nothing memoised yet): a copy
+        # of the active calendar is switched to another mode
+        copy.copy(repo.CALENDAR).set_mode(case["scratch_first"])
+        ctx.ev("cases.scratch-copy-first")
     repo.scratch_for(case)
     try:
         if case["op"] == "year":
@@ -338,6 +345,13 @@ def run_case(ctx, repo, case):
 
 def workload(ctx, repo):
     rng = ctx.rng
+    # (every worker is a fresh process: its first case meets cold memo tables)
+    case = {"op": "year", "mode": R.MODES[ctx.worker % 4],
+            "year": (2004, 2003, 2000, 1900)[(ctx.worker // 4) % 4],
+            "scratch_first": ("360day", "gregorian", "366day", "365day")[
+                (ctx.worker + 1) % 4]}
+    ctx.case = case
+    run_case(ctx, repo, case)
     i = 0
     for spell in SPELLS:
         mode = R.canon(spell)
